@@ -227,7 +227,7 @@ Fixpoint visit (fuel: nat) (n: node) {struct fuel} : GM str :=
       c0 <- gattr "cond" n ;; cs <- (if truthy_v c0 then visit f c0 else gret []) ;;
       gret (s "do" ++ [10] ++ ss ++ ind ++ s "while (" ++ cs ++ s ");")
     | C_StaticAssert =>
-      c0 <- gattr "cond" n ;; cs <- visit f c0 ;;
+      c0 <- gattr "cond" n ;; cs <- visit_expr f c0 ;;
       m <- gattr "message" n ;;
       ms <- (if truthy_v m then (x <- visit f m ;; gret (s "," ++ x)) else gret []) ;;
       gret (s "_Static_assert(" ++ cs ++ ms ++ s ")")
@@ -256,7 +256,7 @@ Fixpoint visit (fuel: nat) (n: node) {struct fuel} : GM str :=
     | C_NamedInitializer =>
       nv <- gattr "name" n ;; ns <- as_list nv ;;
       ds <- mapM (fun d => if is_c C_ID d then (x <- gattr "name" d ;; y <- as_str x ;; gret (s "." ++ y))
-                           else (x <- visit f d ;; gret (s "[" ++ x ++ s "]"))) ns ;;
+                           else (x <- visit_expr f d ;; gret (s "[" ++ x ++ s "]"))) ns ;;
       e <- gattr "expr" n ;; es <- visit_expr f e ;;
       gret (concat_str ds ++ s " = " ++ es)
     | C_FuncDecl => generate_type f n [] true
